@@ -70,6 +70,18 @@ func verifH_C16_adopt() {
 		}
 		damaged++
 	}
+	// two damages may hit the same record (and an alteration may undo an
+	// earlier one): count what is unusable in the final store
+	unusable = 0
+	for i := range store.slots {
+		if store.slots[i].present {
+			if store.slots[i].key&0x18000 == 0x8000 {
+				if _, _, err := decodeValue(store.slots[i].val); err != nil {
+					unusable++
+				}
+			}
+		}
+	}
 	// genuine survivors in original order
 	var g1, g2 []verifEntry
 	for _, e := range ps.q1 {
